@@ -1164,6 +1164,14 @@ def run_program(env, cfg, prog, record=True, plain=False, fault=None, emulate_ac
                     mark('sprelease')
                 elif kind == 'flush':
                     s.flush()
+                elif kind == 'flushonly':
+                    # ['flushonly', cls, key]: session.flush([obj]) - a flush restricted to one object; everything else
+                    # that is pending (other entities, activities) stays pending, but before_flush sees the whole session
+                    o = lookup(op[1], op[2])
+                    if o is None:
+                        outcomes.append('skip')
+                        continue
+                    s.flush([o])
                 elif kind == 'query':
                     s.query(classes[op[1]]).all()
                 elif kind == 'helper':
